@@ -228,26 +228,22 @@ class Exporter:
                     rows.insert(0, row)
 
             # now, export the signatures
-            node_signatures = None
+            node_signatures = []  # an array for each exported spine
             for node in document.tree.stages[from_stage]:
+                header_type = self.compute_header_type(node)
+                if not (header_type is not None
+                        and header_type.encoding in options.spine_types
+                        and (options.spine_ids is None or header_type.spine_id in options.spine_ids)):
+                    continue  # this spine is not exported
                 node_signature_rows = []
                 for signature_node in node.last_signature_nodes.nodes.values():
                     if not self.is_signature_cancelled(signature_node, node, from_stage, to_stage):
                         node_signature_rows.append(self.export_token(signature_node, options))
-                if len(node_signature_rows) > 0:
-                    if not node_signatures:
-                        node_signatures = []  # an array for each spine
-                    else:
-                        if len(node_signatures[0]) != len(node_signature_rows):
-                            raise Exception(f'Node signature mismatch: multiple spines with signatures at measure {len(rows)}')  # TODO better message
-                    node_signatures.append(node_signature_rows)
+                node_signatures.append(node_signature_rows)
 
-            if node_signatures:
-                for irow in range(len(node_signatures[0])):  # all spines have the same number of rows
-                    row = []
-                    for icol in range(len(node_signatures)):  #len(node_signatures) = number of spines
-                        row.append(node_signatures[icol][irow])
-                    rows.append(row)
+            # spines with fewer signatures than the others are padded with null interpretations
+            for irow in range(max((len(spine_rows) for spine_rows in node_signatures), default=0)):
+                rows.append([spine_rows[irow] if irow < len(spine_rows) else '*' for spine_rows in node_signatures])
 
         else:
             from_stage = 0
